@@ -118,6 +118,7 @@ def errName : Err → String
   | .capExt => "capExt"
   | .missingToken => "missingToken"
   | .badToken => "badToken"
+  | .wrongMethod => "wrongMethod"
   | .missingCall => "missingCall"
   | .badCall => "badToken"       -- indistinguishable on the wire ("Malformed state token")
   | .cast => "cast"
@@ -196,14 +197,6 @@ def parseCfg (ws : List String) : Option Cfg :=
 def schemaOk? (s : String) : Option Bool :=
   if s = "ok" || s = "cast" then some true else if s = "bad" || s = "empty" then some false else none
 
-/-- a request whose cursor belongs to the other stream kind is outside the model (C14) -/
-def isCrossKind (w : World) (req : Req) : Bool :=
-  match getFirst keyState req.md with
-  | some tv => match openCursor w tv with
-    | some cur => !(getFirst keyCancel req.md).isSome && req.routeProducer != cur.st.producer
-    | none => false
-  | none => false
-
 def step (st : St) (ws : List String) : St × String :=
   let cfg := st.cfg.getD defaultCfg
   match ws with
@@ -225,10 +218,8 @@ def step (st : St) (ws : List String) : St × String :=
       | some wire, some md =>
         let req : Req := { inst := i, routeProducer := pr, md := md, vals := if schema = "empty" then [] else vs,
                            schemaOk := sok, env := { wire := wire } }
-        if isCrossKind st.w req then (st, "bad-op")
-        else
-          let (resp, w', evs) := handleExchange cfg st.w req
-          ({ cfg := some cfg, w := w' }, showResp w' resp evs true)
+        let (resp, w', evs) := handleExchange cfg st.w req
+        ({ cfg := some cfg, w := w' }, showResp w' resp evs true)
       | _, _ => (st, "bad-op")
     | _, _, _, _, _ => (st, "bad-op")
   | "strip" :: rest =>
